@@ -2,7 +2,7 @@ CONSTANTS
   Setup = "hot"
   NW = 2
   SyncCap = 1
-  MaxTicks = 2
+  MaxTicks = 1
   MaxJPolls = 1
   MaxWakes = 1
   JCmds = {}
